@@ -28,7 +28,7 @@ track_change_detection = []
 bevy = {{ path = "{env}/bevy" }}
 crossbeam = {{ path = "{env}/crossbeam" }}
 tracing = {{ path = "{env}/tracing" }}
-smallvec = {{ version = "1.13", features = ["drain_filter"] }}
+smallvec = {{ path = "{env}/smallvec", features = ["drain_filter"] }}
 bevy_cobweb_derive = {{ path = "bevy_cobweb_derive" }}
 [lints.rust]
 unexpected_cfgs = {{ level = "allow" }}
